@@ -63,6 +63,11 @@ CHECKS = {
   note="Trusted: go/ssa; RADIUS library semantics of AuthResponse.Accepted. Both C04 gaps of the original tree (no IPCP gate, no owner-MAC check) were repaired by fix: commits.",
   tech="static analysis: finite-domain disjunctive dataflow (property simulation) over session state/flag + value-provenance and dominance rules on go/ssa",
   ref="DESIGN.md §2 C04"),
+ "C13": dict(
+  text="Structural clauses of standby convergence on ha.HASyncer: the stream handler tests every declared message type and, for every well-formed message, reaches the dispatch and the per-session loop, applying add/update with PutSession and delete with DeleteSession of the message's own session (path-sensitive dataflow: no decoded change is dropped before it is applied); a full synchronisation deletes store sessions absent from the snapshot; messages are applied synchronously in read order and the active takes the sequence number before enqueueing into a single-consumer queue; an overflowing client is disconnected (closed and deregistered), not skipped; the client registry key is the connection's remote address. The window between full sync and stream attach, TCP/HTTP behaviour and schedules are not decided.",
+  note="Trusted: go/ssa; net/http delivers r.RemoteAddr unique per connection; the SessionStore implementation. Two genuine defects (snapshot not replacing, silent drop) were repaired by fix: commits.",
+  tech="static analysis: path-sensitive finite-domain dataflow for must-apply, exhaustiveness over declared constants, effect rules (no go/send), value-provenance of the registry key",
+  ref="DESIGN.md §2 C13"),
 }
 NA = {}
 def main():
